@@ -789,7 +789,7 @@ fn live_item_bytes(clock: &Clock, codec: &str, item: &str, i: u64) -> Vec<u8> {
     }
 }
 
-fn install_subscriber(sub: &str) {
+pub(crate) fn install_subscriber(sub: &str) {
     use tracing_subscriber::prelude::*;
     match sub {
         "fmt" => {
